@@ -516,7 +516,7 @@ class _Batch:
 
 def _text_conv(trailing_newline=True):
     def conv(rep):
-        if rep in ("bad-op", "error"):
+        if rep in ("bad-op", "error") or rep.startswith("error:"):
             return rep
         return _unhex(rep) + ("\n" if trailing_newline else "")
 
@@ -892,27 +892,361 @@ def _frame_canon(name, df):
 
 
 def _dmig_conv(rep):
+    """driver reply name|form|mtype|rows|cols|frame (the frame is assembled by the Lean model)"""
     if rep == "error":
         return rep
     if rep == "":
         return []
     out = []
     for item in rep.split(";"):
-        nm, form, mtype, rows, cols, ents = item.split("|")
+        nm, form, mtype, rows, cols, frame = item.split("|")
         rows = [tuple(int(x) for x in r.split(".")) for r in rows.split()]
         cols = [tuple(int(x) for x in r.split(".")) for r in cols.split()]
-        mat = [[(0.0, 0.0)] * len(cols) for _ in rows]
-        for e in ents.split():
-            r, c, x, y = e.split("@")
-            r = tuple(int(v) for v in r.split("."))
-            c = tuple(int(v) for v in c.split("."))
-            re = _num(_val_model(x)) or 0.0
-            im = _num(_val_model(y)) or 0.0
-            if _val_model(mtype)[1] < 3:
-                im = 0.0
-            mat[rows.index(r)][cols.index(c)] = (re, im)
+        mat = []
+        for line in (frame.split("/") if rows else []):
+            row = []
+            for e in line.split():
+                x, y = e.split("@")
+                row.append((_num(_val_model(x)) or 0.0, _num(_val_model(y)) or 0.0))
+            mat.append(row)
         out.append((_unhex(nm), rows, cols, mat))
     return out
+
+
+# ---------------------------------------------------------------------------------------
+# vecwrite / GRID / CORD2x / USET streams (Model/BulkGrid.lean)
+
+
+def _arg_req(v, opt=False):
+    """driver encoding of one vecwrite argument: scalar or list of ints ('' -> '-')"""
+    enc = (lambda x: "-" if x == "" else str(int(x))) if opt else (lambda x: str(int(x)))
+    if isinstance(v, (list, tuple, np.ndarray)):
+        return "v %d %s" % (len(v), " ".join(enc(x) for x in v)) if len(v) else "v 0"
+    return "s " + enc(v)
+
+
+def _pack(rng, n, lo, hi, opt=False, bad=0.0):
+    """one documented packaging of a per-grid quantity: scalar, length-1 vector, length-N vector
+    (rarely a vector of another length: the writer must refuse it)"""
+    u = rng.random()
+    if opt and u < 0.25:
+        return ""
+    if u < 0.45:
+        return rng.randint(lo, hi)
+    if u < 0.7:
+        return [rng.randint(lo, hi)]
+    m = n
+    if rng.random() < bad:
+        m = rng.choice([k for k in (0, 2, 3, n + 1, n + 2) if k != n and k != 1])
+    v = [rng.randint(lo, hi) for _ in range(m)]
+    if opt and v and rng.random() < 0.2:
+        v[rng.randrange(len(v))] = ""
+    return v
+
+
+GRID_FORMS = ["{:16.8f}", "{:8.2f}", "{:8.3f}", "{:16.6f}", "{:16.8e}", "{:16.9E}", "{:8.1f}"]
+
+
+def _gen_grid_case(rng, bad=0.12):
+    n = rng.choice([1, 1, 2, 3, 4, 5, 6, 9])
+    form = rng.choice(GRID_FORMS)
+    lim = {"{:8.2f}": 9999.0, "{:8.3f}": 999.0, "{:8.1f}": 99999.0}.get(form, 9.9e5)
+    m = n if rng.random() < 0.55 else 1
+    if rng.random() < bad:
+        m = rng.choice([k for k in (2, 3, n + 1) if k != n])
+    xyz = [[round(rng.uniform(-lim, lim), 3) * rng.choice([1, 1, 1e-3, 0]) for _ in range(3)] for _ in range(m)]
+    return {"ids": sorted(rng.sample(range(1, 99999999), n)), "cp": _pack(rng, n, 0, 9999, bad=bad), "xyz": xyz,
+            "cd": _pack(rng, n, 0, 9999, bad=bad), "form": form, "ps": _pack(rng, n, 1, 123456, opt=True, bad=bad),
+            "seid": _pack(rng, n, 1, 99, opt=True, bad=bad)}
+
+
+def _grid_req(c):
+    form = c["form"]
+    wide = len(form.format(1.0)) == 16
+    toks = []
+    for row in c["xyz"]:
+        toks += [_hex(form.format(v)) for v in row]
+    return "grids %d I %s C %s X %d %s D %s P %s S %s" % (
+        1 if wide else 0, _arg_req(c["ids"]), _arg_req(c["cp"]), len(c["xyz"]), " ".join(toks), _arg_req(c["cd"]),
+        _arg_req(c["ps"], True), _arg_req(c["seid"], True))
+
+
+def _grid_write(c):
+    return _write(_bulk().wtgrids, c["ids"], c["cp"], np.array(c["xyz"], dtype=float), c["cd"], c["ps"], c["seid"], c["form"])
+
+
+def _cord_tokens(name, cid, coord):
+    """what wtcoordcards prints for one system: noise floor 1e-15 of the largest value, '{:16.8e}'"""
+    abc = np.array(coord[1:], dtype=float)
+    abc[abs(abc) < abs(abc).max() * 1e-15] = 0.0
+    return "%s %d %d %s" % (_hex(name), cid, int(coord[0][2]), " ".join(_hex("{:16.8e}".format(v)) for v in abc.ravel()))
+
+
+def _gen_cord_ci(rng):
+    ci = {}
+    for _ in range(rng.randint(1, 3)):
+        cid = rng.randint(1, 99999999)
+        typ = rng.randint(1, 3)
+        if rng.random() < 0.5:
+            abc = [[_mixed(rng, -6, 6, 0.2) for _ in range(3)] for _ in range(3)]
+        else:
+            abc = [[round(rng.uniform(-500, 500), 2) for _ in range(3)] for _ in range(3)]
+        ci[cid] = [{1: "CORD2R", 2: "CORD2C", 3: "CORD2S"}[typ],
+                   np.vstack([[cid, typ, rng.choice([0, 0, 5, 12345678])], np.array(abc, dtype=float)])]
+    return ci
+
+
+def _uset_parts(uset):
+    """the quantities uset2bulk takes from a USET table (documented layout: row dof 1 = location,
+    row dof 2 = [cd id, type, 0])"""
+    from pyyeti.nastran import n2p
+
+    ci = n2p.mkcordcardinfo(uset)
+    dof = uset.index.get_level_values("dof")
+    ids = [int(i) for i in uset.index.get_level_values("id")[dof == 1]]
+    xyz = uset.loc[dof == 1, "x":"z"].values
+    cd = [int(v) for v in uset.loc[dof == 2, "x"].values]
+    return ci, ids, xyz, cd
+
+
+def _grid_streams(ctx, B, texts):
+    bulk = _bulk()
+    from pyyeti import writer
+
+    rng = ctx.rng
+    # vecwrite: argument packaging -----------------------------------------------------------
+    for _ in range(ctx.pick(400, 4000)):
+        n = rng.choice([0, 1, 2, 3, 5])
+        args = []
+        for _ in range(rng.randint(1, 5)):
+            u = rng.random()
+            if u < 0.3:
+                a = rng.randint(-99, 999)
+            elif u < 0.5:
+                a = [rng.randint(-99, 999)]
+            elif u < 0.9:
+                a = [rng.randint(-99, 999) for _ in range(n)]
+            else:
+                a = [rng.randint(-99, 999) for _ in range(rng.choice([0, 2, 3, 4]))]
+            if isinstance(a, list) and rng.random() < 0.3:
+                a = np.array(a, dtype=np.int64) if rng.random() < 0.5 else tuple(a)
+            args.append(a)
+        impl = _write(writer.vecwrite, " ".join(["{}"] * len(args)) + "\n", *args)
+        kind = "value-error" if impl == "error:ValueError" else ("index-error" if impl == "error:IndexError" else "ok")
+        lens = sorted({len(a) for a in args if not isinstance(a, int)})
+        B.add("vecwrite", "vecw " + " ".join(_arg_req(a) for a in args),
+              {"args": [a.tolist() if isinstance(a, np.ndarray) else (list(a) if isinstance(a, tuple) else a) for a in args]},
+              impl, _text_conv(), nontrivial=len(lens) > 0,
+              branch=["vecw:" + kind] + (["vecw:len1-after-lenN"] if _len1_after_lenN(args) else []))
+
+    # wtgrids: every packaging --------------------------------------------------------------
+    for k in range(ctx.pick(500, 5000)):
+        c = _gen_grid_case(rng)
+        impl = _grid_write(c)
+        wide = len(c["form"].format(1.0)) == 16
+        short = c["ps"] == "" and c["seid"] == ""
+        br = ["grids:%s-%d" % ("short" if short else "long", 16 if wide else 8)]
+        if impl.startswith("error"):
+            br.append("grids:" + impl.split(":")[1])
+        else:
+            n = len(c["ids"])
+            if n > 1 and len(c["xyz"]) == 1:
+                br.append("grids:one-row-xyz")
+            if n > 1 and any(isinstance(c[q], list) and len(c[q]) == 1 for q in ("cp", "cd", "ps", "seid")):
+                br.append("grids:len1-vector")
+            if k % 3 == 0:
+                texts.append(("grid", impl))
+        B.add("wtgrids", _grid_req(c), c, impl, _text_conv(), nontrivial=True, branch=br)
+    # the signature defaults: wtgrids(f, ids) --------------------------------------------------
+    for n in (1, 2, 5):
+        ids = list(range(11, 11 + n))
+        c = {"ids": ids, "cp": 0, "xyz": [[0.0, 0.0, 0.0]], "cd": 0, "form": "{:16.8f}", "ps": "", "seid": ""}
+        B.add("wtgrids", _grid_req(c), c, _write(bulk.wtgrids, ids), _text_conv(), branch="grids:defaults")
+
+    # wtcoordcards --------------------------------------------------------------------------
+    for k in range(ctx.pick(150, 1500)):
+        ci = _gen_cord_ci(rng)
+        impl = _write(bulk.wtcoordcards, ci)
+        req = "cords %d %s" % (len(ci), " ".join(_cord_tokens(v[0], cid, v[1]) for cid, v in ci.items()))
+        B.add("wtcoordcards", req, {"systems": [(cid, v[0], v[1].tolist()) for cid, v in ci.items()]}, impl, _text_conv(),
+              branch="cord:written")
+        if not impl.startswith("error") and k % 2 == 0:
+            texts.append(("cord2", impl))
+
+    # uset2bulk -----------------------------------------------------------------------------
+    for k in range(ctx.pick(40, 400)):
+        case = {"seed": rng.randint(0, 2 ** 31), "ncs": rng.randint(0 if k % 3 == 0 else 1, 3), "ngrids": rng.randint(1, 5),
+                "mixed": k % 2 == 0}
+        if k % 3 == 0:
+            case["ncs"] = 0
+        try:
+            uset = _gen_uset(case)[0]
+            ci, ids, xyz, cd = _uset_parts(uset)
+        except Exception as e:
+            ctx.skip("uset-generator:" + type(e).__name__)
+            continue
+        impl = _write(bulk.uset2bulk, uset)
+        toks = []
+        for row in xyz:
+            toks += [_hex("{:16.8f}".format(v)) for v in row]
+        req = "uset %d %s I %s X %d %s D %s" % (
+            len(ci), " ".join(_cord_tokens(v[0], cid, v[1]) for cid, v in ci.items()), _arg_req(ids), len(xyz), " ".join(toks),
+            _arg_req(cd))
+        B.add("uset2bulk", req, case, impl, _text_conv(), branch="uset:" + ("with-coords" if ci else "no-coords"))
+        if not impl.startswith("error"):
+            texts.append(("uset", impl))
+
+
+def _len1_after_lenN(args):
+    seen = False
+    for a in args:
+        if isinstance(a, int):
+            continue
+        if len(a) > 1:
+            seen = True
+        elif len(a) == 1 and seen:
+            return True
+    return False
+
+
+def _grid_variant_texts(ctx):
+    """independently rendered GRID / CORD2x files (fixed 8, fixed 16, comma; blank fields, words, lower
+    case, comments, foreign cards, cards of different length)"""
+    rng = ctx.rng
+    out = [("grid", "GRID\n"), ("grid", "GRID    \nGRID           1\n"), ("grid", "$ nothing here\nCORD2R  1\n"),
+           ("grid", "grid,7,,1.,2.,3.\nGRID*                  8               0              1.              2.\n*                     3.\n"),
+           ("cord2", "CORD2R,1,0,0.,0.,0.,0.,0.,1.\n,1.,0.,0.\n"), ("cord2", "cord2c  2       0       0.      0.      0.      0.      0.      1.\n        1.      0.      0.\n"),
+           ("cord2", "CORD2R,1,0,0.,0.,0.,0.,0.,1.\n,1.,0.\n"), ("cord2", "CORD2RX 1\nCORD2R1 2\nCORD2X  3\n"),
+           ("cord2", "CORD2S,3,,0.,0.,0.,0.,0.,1.\n,1.,0.,0.,\n"), ("cord2", "CORD2S,3,,0.,0.,0.,0.,0.,1.\n,1.,0.,0.,0.\n"),
+           ("cord2", "CORD2S,3,,0.,0.,0.,0.,0.,1.\n,1.,0.,THRU\n")]
+    for _ in range(ctx.pick(200, 2000)):
+        cards = []
+        for _ in range(rng.randint(1, 4)):
+            nf = rng.choice([0, 1, 3, 5, 6, 6, 7, 8, 8, 9, 10])
+            f = []
+            for j in range(nf):
+                if j in (2, 3, 4):
+                    f.append(rng.choice(REALS + [""]))
+                else:
+                    f.append(rng.choice([str(_rand_id(rng, rng.randint(1, 7))), "0", "", "123456", rng.choice(WORDS)]))
+            nm = "GRID" if rng.random() < 0.85 else rng.choice(["GRIDX", "CORD2R", "SPOINT"])
+            cards.append(_render_card(rng, nm, f))
+        out.append(("grid", _decorate(rng, cards)))
+    for _ in range(ctx.pick(200, 2000)):
+        cards = []
+        for _ in range(rng.randint(1, 3)):
+            f = [str(_rand_id(rng, rng.randint(1, 7))), rng.choice(["0", "", "5"])] + [rng.choice(REALS) for _ in range(9)]
+            u = rng.random()
+            if u < 0.08:
+                f = f[:-1]
+            elif u < 0.16:
+                f.append(rng.choice(["", "0", "0.", "7"]))
+            elif u < 0.2:
+                f[rng.randint(2, 10)] = rng.choice(["THRU", ""])
+            nm = rng.choice(["CORD2R", "CORD2C", "CORD2S", "CORD2R", "CORD2X", "CORD2R1", "CORD1R"])
+            cards.append(_render_card(rng, nm, f))
+        out.append(("cord2", _decorate(rng, cards)))
+    return out
+
+
+def _rows_conv(rep):
+    """rows of numbers printed by the driver -> list of lists of float"""
+    if rep in ("none", "error", "error:IndexError"):
+        return rep
+    return [[_num(v) if _num(v) is not None else 0.0 for v in _card_model(c)] for c in rep.split(";")]
+
+
+def _grid_reader_streams(ctx, B, texts):
+    bulk = _bulk()
+    from pyyeti.nastran import n2p
+
+    rng = ctx.rng
+    allt = [(k, t) for k, t in texts if k in ("grid", "cord2", "uset")] + _grid_variant_texts(ctx)
+    for kind, text in list(allt):
+        if kind == "grid" and rng.random() < 0.3:
+            allt.append(("grid", _grid_to_comma(text, rng)))
+    for kind, text in allt:
+        th = _hex(text)
+        if kind in ("grid", "uset"):
+            r = _read(bulk.rdgrids, text)
+            if r is None:
+                impl = "none"
+            elif isinstance(r, str):
+                impl = r
+            else:
+                impl = [[float(v) for v in row] for row in r.tolist()]
+            br = ["rdgrids:" + ("none" if impl == "none" else ("index-error" if impl == "error:IndexError" else "ok"))]
+            if not isinstance(impl, str) and len({len([x for x in ln.split(",")]) for ln in text.split("\n") if ln.lower().startswith("grid")}) > 1:
+                br.append("rdgrids:ragged")
+            B.add("rdgrids", "rdgrids " + th, {"text": text}, impl, _rows_conv, nontrivial=text.count("\n") > 1, branch=br)
+        if kind in ("cord2", "uset"):
+            cards = _read(bulk.rdcards, text, r"(cord2[rcs])\b", return_var="list", regex=True, keep_name=True, blank=0)
+            impl = "none" if cards is None else (cards if isinstance(cards, str) else [[_val_py(v) for v in c] for c in cards])
+
+            def conv_k(rep):
+                m = _cards_model(rep)
+                return m if isinstance(m, str) else [[("i", 0) if v == ("b",) else v for v in c] for c in m]
+
+            B.add("rdcards-regex-keepname", "rdcardsk " + th, {"text": text}, impl, conv_k, branch="rdcardsk")
+            # the twelve numbers handed to n2p.build_coords, and the final dictionary through build_coords
+            conv_fn = getattr(bulk, "_convert_card", None)
+            if conv_fn is not None and not isinstance(cards, str):
+                try:
+                    impl2 = [[float(v) for v in conv_fn(list(c))] for c in (cards or [])]
+                except ValueError:
+                    impl2 = "error"
+                B.add("rdcord2-convert", "rdcord2 " + th, {"text": text}, impl2,
+                      lambda rep: [] if rep == "" else _rows_conv(rep),
+                      branch=["rdcord2:" + ("error" if impl2 == "error" else ("empty" if not impl2 else "ok"))] +
+                             (["rdcord2:13-fields"] if not isinstance(cards, str) and any(len(c) == 13 for c in (cards or [])) else []))
+            full = _read(bulk.rdcord2cards, text)
+
+            def conv_full(rep, n2p=n2p):
+                rows = [] if rep == "" else _rows_conv(rep)
+                if rows == "error":
+                    return "error:ValueError"
+                if not rows:
+                    return {}
+                try:
+                    d = n2p.build_coords(np.array(rows, dtype=float))
+                except Exception as e:
+                    return "error:" + type(e).__name__
+                return {int(k): v.tolist() for k, v in d.items()}
+
+            implf = full if isinstance(full, str) else {int(k): v.tolist() for k, v in full.items()}
+            B.add("rdcord2cards", "rdcord2 " + th, {"text": text}, implf, conv_full, branch="rdcord2cards")
+
+
+def _grid_to_comma(text, rng):
+    """free-format rendering of written GRID cards (8- and 16-wide), lower case now and then"""
+    out = []
+    lines = [l for l in text.split("\n") if l]
+    i = 0
+    while i < len(lines):
+        l = lines[i]
+        if l.startswith("GRID*"):
+            fs = [l[j:j + 16].strip() for j in range(8, len(l), 16)]
+            if i + 1 < len(lines) and lines[i + 1].startswith("*"):
+                l2 = lines[i + 1]
+                fs += [""] * (4 - len(fs)) + [l2[j:j + 16].strip() for j in range(8, len(l2), 16)]
+                i += 1
+            name = "GRID"
+        elif l.startswith("GRID"):
+            fs = [l[j:j + 8].strip() for j in range(8, len(l), 8)]
+            name = "GRID"
+        else:
+            out.append(l)
+            i += 1
+            continue
+        if rng.random() < 0.3:
+            name = name.lower()
+        if len(fs) > 8:
+            out.append(",".join([name] + fs[:8]))
+            out.append(",".join([""] + fs[8:]))
+        else:
+            out.append(",".join([name] + fs))
+        i += 1
+    return "\n".join(out) + "\n"
 
 
 REQUIRED = [
@@ -923,6 +1257,11 @@ REQUIRED = [
     "dmig:form1", "dmig:form2", "dmig:form6", "dmig:form9", "dmig:type1", "dmig:type2", "dmig:type3", "dmig:type4",
     "dmig:kind-f9-unequal", "reader:comma", "reader:fixed", "reader:fixed16", "reader:comment",
     "rdspoints", "rdcsupers", "rdextrn:ok", "rdextrn:error", "rdtabled1:ok", "rdsets:ok", "rdsets:error", "rddmig",
+    "vecw:ok", "vecw:value-error", "vecw:index-error", "vecw:len1-after-lenN",
+    "grids:short-8", "grids:short-16", "grids:long-8", "grids:long-16", "grids:one-row-xyz", "grids:len1-vector",
+    "grids:ValueError", "grids:defaults", "cord:written", "uset:with-coords", "uset:no-coords",
+    "rdgrids:ok", "rdgrids:none", "rdgrids:index-error", "rdgrids:ragged", "rdcardsk", "rdcord2:ok", "rdcord2:error",
+    "rdcord2:empty", "rdcord2:13-fields", "rdcord2cards",
 ]
 
 
@@ -930,7 +1269,9 @@ def correspondence(ctx):
     B = _Batch()
     texts = []
     _writer_streams(ctx, B, texts)
+    _grid_streams(ctx, B, texts)
     _reader_streams(ctx, B, texts)
+    _grid_reader_streams(ctx, B, texts)
     B.run(ctx)
     for it in B.items[:: max(1, len(B.items) // 6)]:
         ctx.sample({"stream": it[0], "input": it[2]})
@@ -1246,7 +1587,8 @@ def _o_grids(case):
     return None
 
 
-def _o_uset(case):
+def _gen_uset(case):
+    """-> (uset, cref, cout)"""
     from pyyeti.nastran import n2p
 
     bulk = _bulk()
@@ -1290,10 +1632,18 @@ def _o_uset(case):
         xyz.append(p)
         cout.append(0 if rng.random() < 0.3 or not order else int(order[rng.integers(0, len(order))]))
     cref = {}
+    # define all systems first (reference chain order), then the grids by id
+    u0 = n2p.addgrid(None, list(range(90001, 90001 + ncs)), "b", 0, np.zeros((ncs, 3)), [systems[c] for c in order], cref) if ncs else None
+    uset = n2p.addgrid(None, gids, "b", cin, np.array(xyz), cout, cref)
+    return uset, cref, cout
+
+
+def _o_uset(case):
+    from pyyeti.nastran import n2p
+
+    bulk = _bulk()
     try:
-        # define all systems first (reference chain order), then the grids by id
-        u0 = n2p.addgrid(None, list(range(90001, 90001 + ncs)), "b", 0, np.zeros((ncs, 3)), [systems[c] for c in order], cref) if ncs else None
-        uset = n2p.addgrid(None, gids, "b", cin, np.array(xyz), cout, cref)
+        uset, cref, cout = _gen_uset(case)
     except Exception as e:
         return ("skip", "generator: " + type(e).__name__)
     text = _write(bulk.uset2bulk, uset)
